@@ -117,6 +117,7 @@ def run(check, prog):
     stops(check, prog, root)
     failure_protocol(check, prog, root)
     angle_guard_agrees(check, prog, root)
+    azimuth_quadrant(check, prog, root)
     handoff(check, prog)
     # "sphere == Lorenz-Mie" for every call, not only the first on a theory
     # object: no solver output may be remembered on the theory / module between
@@ -591,6 +592,45 @@ def failure_protocol(check, prog, root):
                   'the others through): a solver that gave up hands undefined '
                   'amplitudes -- zeros from the first failing direction on -- to the '
                   'field calculation')
+
+
+def azimuth_quadrant(check, prog, root):
+    """E9: the azimuth of a direction in the particle frame is taken with the
+    two-argument arctangent.  AMPL turns the incident and the scattering direction
+    into the particle's frame and needs the angle of the point (CPP, SPP) in the
+    plane; DATAN(SPP / CPP) knows it only up to pi, and a repair of the quadrant by
+    tests on the sign of a third quantity (SP = sin(phi - alpha)) does nothing
+    when that quantity is exactly 0 -- detector azimuth == particle azimuth, which
+    is every pixel on the row through the particle once alpha = 180 (what
+    `_parse_args` hands over for a reversed or negatively tilted axis): the
+    direction comes out mirrored, and `reversing the axis changes nothing` fails
+    by an order-one amount on that row."""
+    import re
+    tm_files = meson_inputs(root, TM_DIR)
+    fp = FortranProgram(root, tm_files)
+    u = fp.units.get('AMPL')
+    if u is None:
+        check.error('subroutine AMPL not found in the tmatrix_f sources')
+        return
+    n = 0
+    for line, t in u.stmts:
+        s = ''.join(t.upper().split())
+        m = re.match(r'^(PHIP1?)=(.*)$', s)
+        if not m or m.group(2).startswith(m.group(1)):
+            continue                    # (the +2 pi reductions of the same variable)
+        n += 1
+        rhs = m.group(2)
+        one_arg = re.search(r'(?<![A-Z0-9_])D?ATAN\(', rhs) is not None
+        check.require(not one_arg and re.search(r'D?ATAN2\(', rhs) is not None,
+                      'E9-azimuth-quadrant', 'ampld.lp.f::AMPL %s' % m.group(1),
+                      'particle-frame azimuth = ATAN2(sine part, cosine part)',
+                      '%s:%d' % (u.path, line),
+                      fail_detail='%s = %s: the quadrant is lost when the numerator is '
+                      'exactly 0 and the denominator negative (true azimuth pi, '
+                      'returned 0)' % (m.group(1), rhs[:40]))
+    check.need('particle-frame azimuths in AMPL', n, 2, 'E9-azimuth-quadrant',
+               'ampld.lp.f::AMPL', 'AMPL computes PHIP and PHIP1',
+               '%s:%d' % (u.path, u.line))
 
 
 def angle_guard_agrees(check, prog, root):
